@@ -761,7 +761,7 @@ fn main() {
          nested call); exhaustive LTRIM$/RTRIM$ over {TAB,VT,FF,blank,NEL,NBSP,x} up to length 3; random printable-ASCII and \
          Latin-1 strings up to length 40 with boundary counts; VAL(STR$(k)) over all 65536 INTEGERs, boundary+sampled \
          LONGs and whole DOUBLE (|k| < 2^53) / SINGLE (|k| <= 2^24) values, with the run-time type and exact value of VAL's \
-         result read from its result slot by the per-instruction observer; VAL on random scanner-alphabet strings (model only). class = (call, style); a case is trivial iff all its \
+         result read from its result slot by the per-instruction observer; VAL on random scanner-alphabet strings (model only); the full VAL scanner (fractions, prefixes, blanks, exponent letters, integers beyond 2^53) on dyadic and random decimals, bit for bit against the model valQ, and VAL(STR$(x)) for fractional SINGLE / DOUBLE x = n/2^k. class = (call, style); a case is trivial iff all its \
          string operands are empty.",
     );
     let thorough = rep.is_thorough();
@@ -1119,8 +1119,460 @@ fn main() {
         rep.sample(J::s("PRINT VAL(\"-0\") -> Val# = VDouble(-0.0) ; model (double t 0)"));
     }
     eprintln!("[c17] val done at {:?}", t0.elapsed());
+
+    // ---- 6. VAL and STR$ beyond whole numbers: the full scanner (RbModel/StrVal.lean) -------------------
+    // Every text is run as PRINT VAL(<text>) and the f64 left in VAL's result slot is compared BIT FOR BIT (that is: as
+    // an exact rational plus sign) with the model's `valQ` (IEEE round-to-nearest-even on rationals) — on all inputs,
+    // the misrounded ones included.  The independent oracle is Rust's correctly rounded `str::parse::<f64>` on the
+    // numeric prefix the scanner accepts; C17's text claims VAL(STR$(k)) = k for whole k only, so a difference on a
+    // fractional text is an observation (counted, first examples in the notes), not a failure.
+    {
+        let mut texts: Vec<String> = [
+            "12.5", "-0.375", "1E3", "1.5D2", ".5", "12abc", "  7 ", "2.25", "151.75", "1 2", "  -    4   . 2   ", "1.2.3",
+            "1-2", "+.5", "-.", ".", "-0.0", "0.1", "3.14", "3.14oops", "1234567890123456789012345678901234567890",
+            "0.0000000000000000000001", "0.00000000000000000000001", "1.e5", "1e-3", "1d3", "+-1", "-+1", "- 1", "1.5 E2",
+            "9007199254740993", "9007199254740992.5", "0.30000000000000004", "1234.0625", "1234.25", "&H10", "1,5",
+        ]
+        .iter()
+        .map(|s| s.to_string())
+        .collect();
+        let n_dy = if thorough { 40_000 } else { 3_000 };
+        for _ in 0..n_dy {
+            // a dyadic fraction with few digits: n / 2^k, exact decimal of at most 15 significant digits
+            let k = rng.range(1, 12) as u32;
+            let bits = rng.range(1, (50 - 2 * k as i64).clamp(1, 30)) as u32;
+            let n = (rng.range(0, (1i64 << bits) - 1) as u64) | 1;
+            let mant = (n as u128) * 5u128.pow(k);
+            if mant >= 1_000_000_000_000_000 {
+                continue;
+            }
+            let scale = 10u128.pow(k);
+            let body = format!("{}.{:0width$}", mant / scale, mant % scale, width = k as usize);
+            let body = if rng.chance(1, 8) && body.starts_with("0.") { body[1..].to_owned() } else { body };
+            let sign = *rng.pick(&["", "", " ", "+", "-", "-", "  ", " -"]);
+            let suffix = *rng.pick(&["", "", "", "", "E3", "D2", "e-1", "abc", ".5", "-1", " ", " 7", "!", "#", "%"]);
+            let mut t = format!("{}{}{}", sign, body, suffix);
+            if rng.chance(1, 6) {
+                // a blank somewhere inside
+                let at = rng.range(0, t.len() as i64) as usize;
+                t.insert(at, ' ');
+            }
+            texts.push(t);
+        }
+        let n_dec = if thorough { 40_000 } else { 3_000 };
+        for _ in 0..n_dec {
+            // arbitrary decimals: 0..8 integer digits, 0..9 (sometimes up to 24) fraction digits
+            let il = rng.range(0, 8);
+            let fl = if rng.chance(1, 10) { rng.range(10, 24) } else { rng.range(0, 9) };
+            let mut t = String::from(*rng.pick(&["", "", "-", "+", " "]));
+            for _ in 0..il {
+                t.push((b'0' + rng.range(0, 9) as u8) as char);
+            }
+            if fl > 0 || rng.chance(1, 4) {
+                t.push('.');
+            }
+            for _ in 0..fl {
+                t.push((b'0' + rng.range(0, 9) as u8) as char);
+            }
+            t.push_str(*rng.pick(&["", "", "", "E2", "x", ".1"]));
+            texts.push(t);
+        }
+        for _ in 0..(if thorough { 4_000 } else { 400 }) {
+            // whole numbers beyond 2^53: the integer path rounds
+            let len = rng.range(16, 30);
+            let mut t = String::new();
+            for i in 0..len {
+                t.push((b'0' + rng.range(if i == 0 { 1 } else { 0 }, 9) as u8) as char);
+            }
+            texts.push(t);
+        }
+        let inputs: Vec<S> = texts.iter().map(|t| t.chars().map(|c| c as u32).collect()).collect();
+        let reqs: Vec<String> = inputs.iter().map(|s| format!("(strval.val {})", sx::ints(s.iter()))).collect();
+        let answers = ask(&reqs);
+        let mut misrounded: Vec<String> = vec![];
+        for (chunk_no, chunk) in inputs.chunks(250).enumerate() {
+            let mut text = String::new();
+            for s in chunk {
+                text.push_str(&format!("PRINT VAL({})\n", lit(s)));
+            }
+            programs += 1;
+            let (ran, vals) = run_program_val(&text, 5_000_000);
+            let ok = matches!(&ran, Ran::Done { lines, err } if err.is_none() && lines.len() == chunk.len()) && vals.len() == chunk.len();
+            if !ok {
+                rep.fail(Failure {
+                    kind: Kind::ModelVsImpl,
+                    signature: "model:valq-batch".into(),
+                    input: text.chars().take(600).collect(),
+                    implementation: format!("batch did not run to the end or {} VAL results were observed", vals.len()),
+                    expected: format!("{} lines and VAL results", chunk.len()),
+                    note: String::new(),
+                });
+                continue;
+            }
+            for (j, s) in chunk.iter().enumerate() {
+                let idx = chunk_no * 250 + j;
+                let ans = &answers[idx];
+                let t = &texts[idx];
+                let (canon, class) = val_prefix_oracle(t);
+                rep.case(Some(format!("valq{}", sx::ints(s.iter()))));
+                rep.bump(&format!("valq.text.{}", class));
+                let got = match &vals[j] {
+                    Variant::VDouble(x) => *x,
+                    other => {
+                        rep.fail(Failure {
+                            kind: Kind::ImplVsProperty,
+                            signature: "val:result-type".into(),
+                            input: format!("PRINT VAL({})", lit(s)),
+                            implementation: format!("{:?}", other),
+                            expected: "a VDouble".into(),
+                            note: "VAL is a DOUBLE function: its result slot must hold a DOUBLE".into(),
+                        });
+                        continue;
+                    }
+                };
+                // model vs implementation: the exact value and the sign bit
+                match parse_model_vq(ans) {
+                    Some(w) => {
+                        rep.bump("valq.model-answers");
+                        if w.to_bits() != got.to_bits() {
+                            rep.fail(Failure {
+                                kind: Kind::ModelVsImpl,
+                                signature: "model:valq".into(),
+                                input: format!("PRINT VAL({})", lit(s)),
+                                implementation: format!("VDouble({:?}) = {}", got, exact_rational(got)),
+                                expected: format!("VDouble({:?}) [{}]", w, ans),
+                                note: "RbModel.Str.valQ (val.rs with IEEE round-to-nearest-even on rationals)".into(),
+                            });
+                        }
+                    }
+                    None if ans == "unmodelled" => rep.bump("valq.unmodelled (more than 22 fraction digits / 300 characters)"),
+                    None => rep.fail(Failure {
+                        kind: Kind::ModelVsImpl,
+                        signature: "model:valq".into(),
+                        input: reqs[idx].clone(),
+                        implementation: format!("{:?}", got),
+                        expected: format!("bad model answer {}", ans),
+                        note: String::new(),
+                    }),
+                }
+                // the oracle: the correctly rounded value of the numeric prefix (observation only, see above)
+                let want: f64 = if canon.is_empty() { 0.0 } else { canon.parse::<f64>().unwrap_or(f64::NAN) };
+                if want.to_bits() == got.to_bits() {
+                    rep.bump("valq.oracle.correctly-rounded");
+                } else if want == got {
+                    rep.bump("valq.oracle.equal-up-to-the-sign-of-zero");
+                } else {
+                    rep.bump("observation.val-fraction-misrounded");
+                    if misrounded.len() < 6 {
+                        misrounded.push(format!("VAL(\"{}\") = {:?}, correctly rounded {:?}", t, got, want));
+                    }
+                }
+            }
+        }
+        rep.notes.push(format!(
+            "observation (outside C17's text, which claims VAL(STR$(k)) for whole k only): val.rs re-divides the running value per fraction digit, so VAL of a fractional text is not always the correctly rounded decimal; first examples: {}",
+            if misrounded.is_empty() { "none in this run".to_owned() } else { misrounded.join("; ") }
+        ));
+        rep.sample(J::s("PRINT VAL(\"2.25\") -> Val# = VDouble(2.2500000000000004) ; model (double f 5066549580791809 2251799813685248) ; correctly rounded 2.25"));
+    }
+    eprintln!("[c17] valq done at {:?}", t0.elapsed());
+    // VAL(STR$(x)) for fractional SINGLE / DOUBLE values: x = n / 2^k is built by an exact division, STR$'s text and
+    // VAL's result slot are compared with the model (strDouble / strSingle, valQ), x itself is read through the observer
+    {
+        let n_fr = if thorough { 20_000 } else { 1_500 };
+        for (var, sigil, max_digits, key) in [("X#", "#", 15u32, "valstr.fraction-double"), ("Y!", "!", 7u32, "valstr.fraction-single")] {
+            let mut xs: Vec<(i64, u64)> = vec![(9, 4), (-3, 8), (1, 2), (-1, 2), (4937, 4), (19745, 16), (1, 1024), (25, 2), (1, 8192), (-607, 4)];
+            for _ in 0..n_fr {
+                let k = rng.range(1, 13) as u32;
+                let lim = 10u128.pow(max_digits) / 5u128.pow(k);
+                if lim < 2 {
+                    continue;
+                }
+                let hi = (lim.min(1 << 23) as i64).max(2);
+                let n = rng.range(1, hi - 1) | 1;
+                if (n as u128) * 5u128.pow(k) >= 10u128.pow(max_digits) {
+                    continue;
+                }
+                xs.push((if rng.chance(1, 3) { -n } else { n }, 1u64 << k));
+            }
+            let reqs: Vec<String> = xs
+                .iter()
+                .flat_map(|(n, d)| {
+                    let which = if sigil == "#" { "dbl" } else { "sgl" };
+                    [format!("(strval.str{} {} {})", which, n, d), format!("(strval.valstr{} {} {})", which, n, d)]
+                })
+                .collect();
+            let answers = ask(&reqs);
+            let mut not_back: Vec<String> = vec![];
+            for (chunk_no, chunk) in xs.chunks(200).enumerate() {
+                let mut text = String::new();
+                for (n, d) in chunk {
+                    text.push_str(&format!("N{s} = {n}\nD{s} = {d}\n{v} = N{s} / D{s}\nPRINT STR$({v}); \"|\"; VAL(STR$({v}))\n", v = var, n = n, d = d, s = sigil));
+                }
+                programs += 1;
+                rep.bump_by(key, chunk.len() as u64);
+                let (ran, vals) = run_program_val_watch(&text, 5_000_000, var);
+                let lines = match &ran {
+                    Ran::Done { lines, err } if err.is_none() && lines.len() == chunk.len() && vals.len() == chunk.len() => lines.clone(),
+                    _ => {
+                        rep.fail(Failure {
+                            kind: Kind::ModelVsImpl,
+                            signature: "model:valstr-fraction-batch".into(),
+                            input: text.chars().take(600).collect(),
+                            implementation: format!("batch did not run to the end or {} VAL results were observed", vals.len()),
+                            expected: format!("{} lines and VAL results", chunk.len()),
+                            note: String::new(),
+                        });
+                        continue;
+                    }
+                };
+                for (j, (n, d)) in chunk.iter().enumerate() {
+                    let a = &answers[2 * (chunk_no * 200 + j)..2 * (chunk_no * 200 + j) + 2];
+                    rep.case(Some(format!("valstr-frac {}/{}{}", n, d, sigil)));
+                    let x = *n as f64 / *d as f64; // exact: |n| < 2^24, d a power of two
+                    // the variable really holds n / d (read through the observer, as the exact value)
+                    let held = match &vals[j].1 {
+                        Some(Variant::VDouble(h)) => Some(*h),
+                        Some(Variant::VSingle(h)) => Some(*h as f64),
+                        _ => None,
+                    };
+                    if held.map(|h| h.to_bits()) != Some(x.to_bits()) {
+                        rep.bump("valstr.fraction.variable-not-as-intended-skipped");
+                        continue;
+                    }
+                    let line = String::from_utf8_lossy(&lines[j]).to_string();
+                    let (l, _r) = match line.split_once('|') {
+                        Some(p) => p,
+                        None => {
+                            rep.fail(Failure {
+                                kind: Kind::ModelVsImpl,
+                                signature: "model:strfloat".into(),
+                                input: format!("STR$({}/{}{})", n, d, sigil),
+                                implementation: line.clone(),
+                                expected: "STR$|VAL".into(),
+                                note: String::new(),
+                            });
+                            continue;
+                        }
+                    };
+                    // STR$: the model's text; and the contract assumed of Rust's Display (the text reads back as x)
+                    let codes = sx::ints(l.chars().map(|c| c as u32));
+                    let want_text = a[0].strip_prefix("(ok ").and_then(|t| t.strip_suffix(')'));
+                    match want_text {
+                        Some(w) => {
+                            rep.bump("valstr.fraction.str-modelled");
+                            if w != codes {
+                                rep.fail(Failure {
+                                    kind: Kind::ModelVsImpl,
+                                    signature: "model:strfloat".into(),
+                                    input: format!("STR$({}/{}{})", n, d, sigil),
+                                    implementation: format!("{:?}", l),
+                                    expected: w.to_owned(),
+                                    note: "RbModel.Str.strDouble / strSingle".into(),
+                                });
+                            }
+                        }
+                        None => rep.bump("valstr.fraction.str-unmodelled"),
+                    }
+                    let first = l.chars().next();
+                    // in the float's own format: STR$ of a SINGLE prints the shortest decimal that reads back as that binary32 number
+                    let reads_back = if sigil == "#" {
+                        l.trim().parse::<f64>().ok().map(|p| p.to_bits()) == Some(x.to_bits())
+                    } else {
+                        l.trim().parse::<f32>().ok().map(|p| p.to_bits()) == Some((x as f32).to_bits())
+                    };
+                    if (x >= 0.0 && first != Some(' ')) || (x < 0.0 && first != Some('-')) || !reads_back {
+                        rep.fail(Failure {
+                            kind: Kind::ModelVsImpl,
+                            signature: "str:float-display-contract".into(),
+                            input: format!("STR$({}/{}{})", n, d, sigil),
+                            implementation: format!("{:?}", l),
+                            expected: format!("a blank or a minus sign, then a decimal that reads back as {:?}", x),
+                            note: "str_sign_blank / the contract assumed of format!(\"{}\", float)".into(),
+                        });
+                    }
+                    // VAL(STR$(x)): model vs implementation bit for bit; vs x as an observation
+                    let got = match &vals[j].0 {
+                        Variant::VDouble(g) => *g,
+                        other => {
+                            rep.fail(Failure {
+                                kind: Kind::ImplVsProperty,
+                                signature: "val:result-type".into(),
+                                input: format!("VAL(STR$({}/{}{}))", n, d, sigil),
+                                implementation: format!("{:?}", other),
+                                expected: "a VDouble".into(),
+                                note: "VAL is a DOUBLE function".into(),
+                            });
+                            continue;
+                        }
+                    };
+                    match parse_model_vq(&a[1]) {
+                        Some(w) => {
+                            if w.to_bits() != got.to_bits() {
+                                rep.fail(Failure {
+                                    kind: Kind::ModelVsImpl,
+                                    signature: "model:valstr-fraction".into(),
+                                    input: format!("VAL(STR$({}/{}{}))", n, d, sigil),
+                                    implementation: format!("VDouble({:?}) = {}", got, exact_rational(got)),
+                                    expected: a[1].clone(),
+                                    note: "RbModel.Str.valQ (strDouble x)".into(),
+                                });
+                            }
+                        }
+                        None if a[1] == "unmodelled" => rep.bump("valstr.fraction.val-unmodelled"),
+                        None => rep.fail(Failure {
+                            kind: Kind::ModelVsImpl,
+                            signature: "model:valstr-fraction".into(),
+                            input: format!("VAL(STR$({}/{}{}))", n, d, sigil),
+                            implementation: format!("{:?}", got),
+                            expected: format!("bad model answer {}", a[1]),
+                            note: String::new(),
+                        }),
+                    }
+                    if want_text.is_none() {
+                        // STR$ prints a shorter decimal than the exact one (more than 7 / 15 significant digits): nothing to come back
+                    } else if got.to_bits() == x.to_bits() {
+                        rep.bump("valstr.fraction.comes-back");
+                    } else {
+                        rep.bump("observation.valstr-fraction-does-not-come-back");
+                        if not_back.len() < 4 {
+                            not_back.push(format!("VAL(STR$({}/{}{})) = {:?}, x = {:?}", n, d, sigil, got, x));
+                        }
+                    }
+                }
+            }
+            rep.notes.push(format!(
+                "observation: VAL(STR$(x)) for fractional {} values differs from x where the fraction loop misrounds; first examples: {}",
+                if sigil == "#" { "DOUBLE" } else { "SINGLE" },
+                if not_back.is_empty() { "none in this run".to_owned() } else { not_back.join("; ") }
+            ));
+        }
+        rep.sample(J::s("N# = 4937 : D# = 4 : X# = N# / D# : PRINT STR$(X#); \"|\"; VAL(STR$(X#)) -> ` 1234.25| 1234.25`, Val# = VDouble(1234.25) = model"));
+    }
+    eprintln!("[c17] valstr fractions done at {:?}", t0.elapsed());
     rep.notes.push(format!("{} programs were run through the interpreter", programs));
     rep.finish();
+}
+
+/// The numeric prefix `val.rs` reads, in canonical form (`[-]digits[.digits]`, blanks dropped), computed
+/// independently of the model from the scanner's rules, and a class name for the input distribution.
+fn val_prefix_oracle(t: &str) -> (String, &'static str) {
+    let mut out = String::new();
+    let (mut seen_sign, mut seen_digit, mut seen_dot) = (false, false, false);
+    let mut stopped_by: Option<char> = None;
+    for c in t.chars() {
+        if c == ' ' {
+            continue;
+        }
+        if c.is_ascii_digit() {
+            seen_digit = true;
+            out.push(c);
+        } else if c == '.' && !seen_dot {
+            seen_dot = true;
+            out.push(c);
+        } else if (c == '-' || c == '+') && !seen_sign && !seen_digit && !seen_dot {
+            seen_sign = true;
+            if c == '-' {
+                out.push(c);
+            }
+        } else {
+            stopped_by = Some(c);
+            break;
+        }
+    }
+    if !seen_digit && !seen_dot {
+        return (String::new(), "no-number");
+    }
+    if !seen_digit {
+        // "." or "-.": VDouble(0.0), negated for "-."
+        return (if out.starts_with('-') { "-0".to_owned() } else { "0".to_owned() }, "lone-decimal-point");
+    }
+    let class = match (seen_dot && !out.ends_with('.'), stopped_by) {
+        (true, None) => "fraction",
+        (true, Some('E' | 'D' | 'e' | 'd')) => "fraction-then-exponent-letter",
+        (true, Some(_)) => "fraction-then-other-text",
+        (false, None) => "whole",
+        (false, Some('E' | 'D' | 'e' | 'd')) => "whole-then-exponent-letter",
+        (false, Some(_)) => "whole-then-other-text",
+    };
+    if out.ends_with('.') {
+        out.pop();
+    }
+    if out.starts_with('.') {
+        out.insert(0, '0');
+    }
+    if out.starts_with("-.") {
+        out.insert(1, '0');
+    }
+    (out, class)
+}
+
+/// `(double t|f num den)` → the f64 with that sign bit and exact magnitude (`num` has at most 53 significant bits
+/// and `den` is a power of two, so both conversions and the division are exact).
+fn parse_model_vq(ans: &str) -> Option<f64> {
+    let inner = ans.strip_prefix("(double ")?.strip_suffix(')')?;
+    let mut it = inner.split(' ');
+    let neg = match it.next()? {
+        "t" => true,
+        "f" => false,
+        _ => return None,
+    };
+    let num: f64 = it.next()?.parse().ok()?;
+    let den: f64 = it.next()?.parse().ok()?;
+    if it.next().is_some() || den == 0.0 {
+        return None;
+    }
+    let x = num / den;
+    Some(if neg { -x } else { x })
+}
+
+/// The exact value of a finite f64 as `m * 2^e` (for messages).
+fn exact_rational(x: f64) -> String {
+    let bits = x.to_bits();
+    let exp = ((bits >> 52) & 0x7ff) as i64;
+    let frac = bits & ((1u64 << 52) - 1);
+    let (m, e) = if exp == 0 { (frac, -1074) } else { (frac | (1u64 << 52), exp - 1075) };
+    format!("{}{} * 2^{}", if bits >> 63 == 1 { "-" } else { "" }, m, e)
+}
+
+/// Like `run_program_val`, and with every VAL result the value the variable `watch` holds at that moment.
+fn run_program_val_watch(text: &str, budget: u64, watch: &str) -> (Ran, Vec<(Variant, Option<Variant>)>) {
+    let seen: Rc<RefCell<(bool, Vec<(Variant, Option<Variant>)>)>> = Default::default();
+    let seen2 = seen.clone();
+    let watch = watch.to_owned();
+    let observer = Box::new(move |s: &Snapshot| {
+        if let Some(blocks) = &s.vars {
+            let slot = blocks.iter().flat_map(|b| b.iter()).find(|(n, _)| n.eq_ignore_ascii_case("val#"));
+            let mut g = seen2.borrow_mut();
+            match slot {
+                Some((_, v)) => {
+                    if !g.0 {
+                        g.0 = true;
+                        let w = blocks.iter().flat_map(|b| b.iter()).find(|(n, _)| n.eq_ignore_ascii_case(&watch)).map(|(_, v)| v.clone());
+                        g.1.push((v.clone(), w));
+                    }
+                }
+                None => g.0 = false,
+            }
+        }
+    });
+    let ran = match std::panic::catch_unwind(std::panic::AssertUnwindSafe(|| run_in_memory(text, b"", budget, Some(observer), true))) {
+        Ok(Ok(r)) => {
+            let err = match &r.result {
+                Ok(()) => None,
+                Err(e) => Some(e.err().get_code()),
+            };
+            if r.budget_exhausted {
+                Ran::FrontEnd("instruction budget exhausted".into())
+            } else {
+                Ran::Done { lines: split_lines(&r.stdout), err }
+            }
+        }
+        Ok(Err(e)) => Ran::FrontEnd(format!("{:?}", e)),
+        Err(_) => Ran::Panic,
+    };
+    let vals = seen.borrow().1.clone();
+    (ran, vals)
 }
 
 /// `(double t|f m)` → (negative, magnitude)
